@@ -41,6 +41,8 @@ def main(pid):
                     from specs.dbmodel import S1, S2, S3, S_DIR
                     wkw = {'row_kw': {'fs_choices': (None, S1, S2, S3, S_DIR)}}
                 depscheck.kernel_agreement(chk, N, E, goals=True, world_kw=wkw)
+                if not only:
+                    depscheck.validate_kernel(chk, rep, n=(60 if chk.thorough() else 24))
             elif ob == 'quiet_memo':
                 depsobl.quiet_and_memo(chk, 2)
             elif ob == 'two_phase':
